@@ -118,4 +118,64 @@ theorem runNested_out (items : List Item) (es : List Ev) :
     (runNested items es).out = (runWithE (dotAdd items.length) (derived items es []) [] []).out :=
   runNestedAux_out items es ⟨[], []⟩ []
 
+/-- no inner combinator raises along the arrival sequence -/
+def InnerOK (items : List Item) : List Ev → List (Nat × TV) → Prop
+  | [], _ => True
+  | (p, t) :: es, inn =>
+      match findSub p items 0 with
+      | some (i, k, ports) =>
+          (innerAdd k ports ((inn.lookup i).getD []) p t).err = none ∧
+            InnerOK items es (setI inn i (innerAdd k ports ((inn.lookup i).getD []) p t).tv)
+      | none => InnerOK items es inn
+
+/-- **exceptions of the nested run**: when no inner combinator raises, the nested run raises exactly when the
+    outer dot product raises on the derived element stream -/
+theorem runNestedAux_err (items : List Item) : ∀ (es : List Ev) (s : NSt) (out : List Emit),
+    InnerOK items es s.inner →
+    (runNestedAux items es s out).err =
+      (runWithE (dotAdd items.length) (derived items es s.inner) s.outer out).err := by
+  intro es
+  induction es with
+  | nil => intro s out _; rfl
+  | cons ev es ih =>
+    obtain ⟨p, t⟩ := ev
+    intro s out hok
+    simp only [runNestedAux, nestedAdd, derived]
+    simp only [InnerOK] at hok
+    cases hf : findSub p items 0 with
+    | none =>
+      rw [hf] at hok
+      simp only at hok
+      simp only [runWithE]
+      cases h : (dotAdd items.length s.outer ((findPort p items 0).getD items.length) (Elem.ofTok p t)).err with
+      | some x => rfl
+      | none => exact ih ⟨_, s.inner⟩ _ hok
+    | some x =>
+      obtain ⟨i, k, ports⟩ := x
+      rw [hf] at hok
+      simp only at hok
+      obtain ⟨hr, hok'⟩ := hok
+      simp only [innerGet]
+      generalize innerAdd k ports ((s.inner.lookup i).getD []) p t = r at hr hok'
+      rw [feedSchemas_eq]
+      have hsi : (innerSet s i r.tv).outer = s.outer := rfl
+      have hsin : (innerSet s i r.tv).inner = setI s.inner i r.tv := rfl
+      rw [hsi]
+      generalize hD : r.out.map (fun s => (i, (⟨schemaTag s, s⟩ : Elem))) = D
+      have hshift := runWithE_shift (dotAdd items.length) D s.outer out
+      simp only [hr]
+      cases h2 : (runWithE (dotAdd items.length) D s.outer []).err with
+      | some x2 =>
+        simp only
+        rw [runWithE_append, hshift]
+        simp only [h2]
+      | none =>
+        simp only
+        rw [ih _ _ (by rw [hsin]; exact hok'), runWithE_append, hshift]
+        simp only [h2, hsin]
+
+theorem runNested_err (items : List Item) (es : List Ev) (h : InnerOK items es []) :
+    (runNested items es).err = (runWithE (dotAdd items.length) (derived items es []) [] []).err :=
+  runNestedAux_err items es ⟨[], []⟩ [] h
+
 end SFV.Comb
